@@ -91,7 +91,59 @@ func c11(c *Ctx) {
 		for _, in := range Instrs(c.F("litefs.(*DB).ApplyLTXNoLock"), p.Writes("litefs.DB.mode")) {
 			ap = append(ap, fieldStoreVal(p, in))
 		}
-		c.ExpectAll("mode/apply-origin", ap, pat("phi(0|phi(litefs.(*DB).Mode(p0)|phi(1)))")+"|"+pat("phi(0|phi(phi(1)|litefs.(*DB).Mode(p0)))"), 1, "after an apply the mode is rollback for a tombstone, WAL when the applied page 1 says so, otherwise unchanged", "")
+		c.ExpectAll("mode/apply-origin", ap, `phi\(0\|phi\((litefs\.\(\*DB\)\.Mode\(p0\)\|phi\((0\|1|1\|0)\)|phi\((0\|1|1\|0)\)\|litefs\.\(\*DB\)\.Mode\(p0\))\)\)`, 1, "after an apply the mode is rollback for a tombstone, WAL or rollback as the applied page 1 says, and unchanged only when page 1 is not part of the file", "a replica that keeps WAL mode after the primary went back to a rollback journal takes the WAL lock set for its internal writes, which does not exclude a rollback-mode reader holding SHARED")
+		{
+			// which of the two constants is chosen: WAL only for read/write version 2, rollback otherwise, both only for page 1
+			fn := c.F("litefs.(*DB).ApplyLTXNoLock")
+			d := "the mode taken from an applied page 1 is WAL exactly when bytes 18 and 19 are 2, rollback otherwise"
+			okN, bad := 0, ""
+			if fn != nil {
+				isPg1 := G(`\(1 == .*\.Pgno\)|\(.*\.Pgno == 1\)`, true)
+				b18 := G(`\(2 == .*\[18\]\)|\(.*\[18\] == 2\)`, true)
+				b19 := G(`\(2 == .*\[19\]\)|\(.*\[19\] == 2\)`, true)
+				for _, b := range fn.Blocks {
+					for _, in := range b.Instrs {
+						phi, ok := in.(*ssa.Phi)
+						if !ok {
+							continue
+						}
+						consts := map[string][]*ssa.BasicBlock{}
+						for i, e := range phi.Edges {
+							if k, ok := e.(*ssa.Const); ok && k.Value != nil && typeStr(k.Type()) == "litefs.DBMode" {
+								consts[k.Value.ExactString()] = append(consts[k.Value.ExactString()], b.Preds[i])
+							}
+						}
+						if len(consts["0"]) == 0 || len(consts["1"]) == 0 {
+							continue
+						}
+						for val, preds := range consts {
+							for _, pb := range preds {
+								last := pb.Instrs[len(pb.Instrs)-1]
+								if !c.dominatedBy(fn, last, isPg1) {
+									bad = "a mode constant is chosen at " + c.where(last) + " for a page other than page 1"
+								}
+								both := c.dominatedBy(fn, last, b18) && c.dominatedBy(fn, last, b19)
+								if val == "1" && !both {
+									bad = "WAL is chosen at " + c.where(last) + " without both version bytes being 2"
+								}
+								if val == "0" && both {
+									bad = "rollback is chosen at " + c.where(last) + " although both version bytes are 2"
+								}
+								okN++
+							}
+						}
+					}
+				}
+			}
+			if bad != "" || okN < 2 {
+				if bad == "" {
+					bad = "no choice between the two mode constants found in ApplyLTXNoLock (the mode can only go one way)"
+				}
+				c.fail("mode/apply-follows-page1", "K2 Guarded (value identity on go/ssa)", d, "the mode must follow the primary in both directions", bad, okN)
+			} else {
+				c.ok("mode/apply-follows-page1", "K2 Guarded (value identity on go/ssa)", d, okN)
+			}
+		}
 		c.OnlyIn("mode/writers", p.Writes("litefs.DB.mode"), []string{pat("litefs.NewDB"), pat("litefs.(*DB).initFromDatabaseHeader"), pat("litefs.(*DB).CommitJournal"), pat("litefs.(*DB).CommitWAL"), pat("litefs.(*DB).ApplyLTXNoLock"), pat("litefs.(*DB).Drop"), pat("litefs.(*DB).initDatabaseFile"), pat("litefs.(*DB).Open")}, 4, "DB.mode is written only by initialisation, the two commit paths, the apply and the drop", "")
 	}
 
